@@ -77,9 +77,12 @@ class Target:
         self.states = set()
         self.current = None
         self.abort_at = None
+        self.own = {st.id: st for st in phase.statements}
 
     def _check_sets(self, where):
         c = self.ctl
+        if not all(hasattr(c, a) for a in ("plan", "plan_id_set", "executed_ids")):
+            return          # the book-keeping is not part of the property; observed only where it exists
         if len(set(c.plan)) != len(c.plan) or set(c.plan) != set(c.plan_id_set):
             raise Violation("sets-consistent", "%s: plan=%s plan_id_set=%s" % (where, c.plan, sorted(c.plan_id_set)))
         if set(c.plan) & set(c.executed_ids):
@@ -89,6 +92,9 @@ class Target:
 
     def evaluate_condition(self, stmt):
         sid = stmt.id
+        if stmt is not self.own.get(sid):
+            raise Violation("foreign-statement", "the step of phase 'ph' was handed %s, which is not a statement of "
+                            "that phase (another phase uses the same id)" % (stmt,))
         self._check_sets("at guard of %s" % sid)
         if sid in self.visited:
             raise Violation("visit-once", "%s visited twice; trace %s" % (sid, self.trace))
@@ -175,6 +181,16 @@ def is_acyclic(n, edges):
     return all(visit(i) for i in range(n))
 
 
+def method_around(phase, ids):
+    """the method the controller belongs to: the phase under test between two other phases that use the SAME statement
+    ids (ids are unique per phase only) with other dependencies -- none before, a chain after"""
+    from dagrt.language import DAGCode, ExecutionPhase
+    before = ExecutionPhase(name="aa", next_phase="ph", statements=[Stub(i, []) for i in ids])
+    after = ExecutionPhase(name="zz", next_phase="ph",
+                           statements=[Stub(i, ids[k + 1:k + 2]) for k, i in enumerate(ids)])
+    return DAGCode({"aa": before, "ph": phase, "zz": after}, "ph")
+
+
 def run_case(n, edges, root_order, dep_orders, guards, script, second_step=True, abort=None):
     """One execution on the real controller. Returns (violation or None, info)."""
     from dagrt.language import ExecutionController, ExecutionPhase
@@ -182,7 +198,7 @@ def run_case(n, edges, root_order, dep_orders, guards, script, second_step=True,
     ids = ["s%d" % i for i in range(n)]
     stmts = [Stub(ids[i], [ids[j] for j in dep_orders[i]]) for i in range(n)]
     phase = ExecutionPhase(name="ph", next_phase="ph", statements=stmts)
-    ctl = ExecutionController(None)
+    ctl = ExecutionController(method_around(phase, ids))
     depsn = {ids[i]: [ids[j] for j in deps[i]] for i in range(n)}
     clon = {ids[i]: {ids[j] for j in clo[i]} for i in range(n)}
     g = {ids[i]: guards[i] for i in range(n)}
@@ -216,7 +232,7 @@ def run_case(n, edges, root_order, dep_orders, guards, script, second_step=True,
             notx = [i for i in ids if g[i] and ("x" + i) not in tgt.trace]
             if notx:
                 return ("exec-iff-guard", "step %d: guard true but never executed: %s" % (step, notx)), info
-            if ctl.plan or ctl.plan_id_set:
+            if getattr(ctl, "plan", None) or getattr(ctl, "plan_id_set", None):
                 return ("sets-consistent", "plan not empty after the step: %s" % ctl.plan), info
     except Exception as e:
         return ("exception(%s)" % type(e).__name__, "%s: %s" % (type(e).__name__, e)), info
